@@ -259,7 +259,7 @@ theorem stageAB {m : Mem} (hI : Inv m) {total : Int} {segs : List (Int × Nat)} 
     · obtain ⟨v', hh, hv', _, _, hd, _, _⟩ := hK.elim'
       rw [hk] at hv'; cases hv'
       have := getElem?_lt_of_some hd
-      simp only [inpOf] at this
+      simp only at this
       rw [hI.lenR]; exact this
     · rw [hIn.elim'.1] at hk; cases hk; omega
     · rw [hA.1] at hk; cases hk; omega
@@ -430,7 +430,7 @@ theorem final_inv {m : Mem} (hI : Inv m) {total : Int} {segs : List (Int × Nat)
       rw [hi] at hk; cases hk; omega
     · obtain ⟨_, _, t', len, c, ht', _, _, hr0, _, _⟩ := hIn.elim'
       rw [hk] at ht'; cases ht'
-      simp only [inpOf] at hr0
+      simp only at hr0
       rw [hts] at hr0
       refine ⟨hr0, ?_⟩
       have := getElem?_lt_of_some hr0
@@ -459,7 +459,7 @@ theorem final_inv {m : Mem} (hI : Inv m) {total : Int} {segs : List (Int × Nat)
     rcases hacc k hkM with hK | hIn | hA
     · left
       obtain ⟨v, h, hv, hh, h0, hd, ha, hi⟩ := hK.elim'
-      simp only [inpOf] at hh hd
+      simp only at hh hd
       refine ⟨v, h, hv, ?_, h0, hd, ?_⟩
       · rw [List.getElem?_map] at hh; exact hh
       · rw [hw3f k ha, hP4 k hi, hv]
